@@ -492,3 +492,30 @@ def transaction_premises(ctx, chk, rule):
     else:
         chk.ok(rule, gs.qualname, 'isolation_level=None; BEGIN listener; PRAGMA journal_mode=wal only; autocommit=False, autoflush=False',
                detail='index changes become visible and durable only at the COMMITs the code issues (WAL: readers keep their snapshot)')
+
+
+def row_column_of(prog, fn, at_node):
+    """{local name: column name} for the nearest enclosing `for <tuple> in <session>.execute(<SELECT>)` loop around `at_node`
+    (positional unpacking of the selected columns); {} if there is none."""
+    from ..effects import sql_statement
+    lp = getattr(at_node, '_parent', None)
+    while lp is not None:
+        if isinstance(lp, ast.For) and isinstance(lp.target, ast.Tuple) and isinstance(lp.iter, ast.Call) and isinstance(lp.iter.func, ast.Attribute) and lp.iter.func.attr == 'execute' and lp.iter.args:
+            info = sql_statement(prog, lp.iter.args[0], fn, lp.lineno)
+            if info and info.get('op') == 'SELECT':
+                cols = [c.split('.')[-1] for c in info['cols']]
+                names = [t.id if isinstance(t, ast.Name) else None for t in lp.target.elts]
+                if len(cols) == len(names):
+                    return {n: c for n, c in zip(names, cols) if n}
+        lp = getattr(lp, '_parent', None)
+    return {}
+
+
+def field_role(prog, fn, expr, at_node):
+    """The index column an expression stands for: attribute name of a row object (`meta.offset` -> 'offset') or the column a loop
+    variable was unpacked from; None if unknown."""
+    if isinstance(expr, ast.Attribute):
+        return expr.attr
+    if isinstance(expr, ast.Name):
+        return row_column_of(prog, fn, at_node).get(expr.id)
+    return None
